@@ -173,6 +173,21 @@ JudgeWsplit(e) ==
            c == WrapVerdict(lines, Cells(e.f), e.cols)
        IN IF c # "ok" THEN V("Wsplit." \o c, FALSE) ELSE V("ok", e.res.vs = ImplWsplit(e.f, e.cols))
 
+\* one very long run of one character (n times a character cw columns wide) wrapped at e.cols: judged on scalar facts -
+\* the lengths of the lines, and the harness's observation that every line consists of that character under the run's
+\* attributes only (e.same) - instead of on tens of thousands of cells: no character lost or added, no line too wide,
+\* no line that could have taken one more character
+RECURSIVE SumUpTo(_, _)
+SumUpTo(xs, k) == IF k = 0 THEN 0 ELSE xs[k] + SumUpTo(xs, k - 1)
+SumLens(xs) == SumUpTo(xs, Len(xs))
+JudgeWsplitLong(e) ==
+  IF e.k # "ok" THEN V("Wsplit.Raised", FALSE)
+  ELSE IF e.same # 1 THEN V("Wsplit.AllCharacters", FALSE)
+  ELSE IF SumLens(e.lens) # e.n THEN V("Wsplit.AllCharacters", FALSE)
+  ELSE IF \E j \in 1..Len(e.lens) : e.lens[j] * e.cw > e.cols THEN V("Wsplit.LineTooWide", FALSE)
+  ELSE IF \E j \in 1..Len(e.lens) - 1 : (e.lens[j] + 1) * e.cw <= e.cols THEN V("Wsplit.LineNotFilled", FALSE)
+  ELSE V("ok", TRUE)
+
 (* ---------------------------------------------------------------- C16 *)
 JudgeLinesplit(e) ==
   IF e.res.k # "ok" THEN V("Linesplit.Raised", FALSE)
@@ -238,6 +253,7 @@ Judge(e) ==
     [] e.op = "width_at" -> JudgeWidthAt(e)
     [] e.op = "wslice" -> JudgeWslice(e)
     [] e.op = "wsplit" -> JudgeWsplit(e)
+    [] e.op = "wsplitlong" -> JudgeWsplitLong(e)
     [] e.op = "linesplit" -> JudgeLinesplit(e)
     [] e.op = "split" -> JudgeSplit(e)
     [] e.op = "splitlines" -> JudgeSplitlines(e)
